@@ -8,7 +8,7 @@ package main
 //              | g:<dt_ns>                 collector run at now advanced by dt
 //           addr = 4-<8 hex> | 6-<32 hex>  (v4-mapped addresses are 6-00..00ffff<8 hex>)
 //           rate/burst/v4/v6 = 0 means omitted (defaults through NewClientLimiter -> setDefault)
-//           clock=virt: now = fixed base + offset, collector through the VerifGcAt hook
+//           clock=virt: now = fixed base + offset, collector through the VerifGcNow hook (= the real gcAt)
 //           clock=real: exactly one g op; the base is chosen so that this op happens "now" on the real
 //                       clock and the real gc() is called (arrival times keep clear of the 60 s threshold)
 //   result: dec=<0|1 per a-op> len=<entries at the end> near=<decisions within 1e-6 token of the threshold>
@@ -84,7 +84,13 @@ func runLimiter(id string, parts []string) string {
 	return guard(id, 20*time.Second, func() string {
 		cl := limiter.NewClientLimiter(c15Opts(f))
 		defer cl.Close()
+		return c15History(cl, f, ops)
+	})
+}
 
+// c15History plays an ops history (see kind "limiter") on a ClientLimiter.
+func c15History(cl *limiter.ClientLimiter, f map[string]string, ops []string) string {
+	{
 		base := time.Unix(1_800_000_000, 0)
 		realClock := f["clock"] == "real"
 		if realClock {
@@ -139,7 +145,7 @@ func runLimiter(id string, parts []string) string {
 				if realClock {
 					cl.VerifGc()
 				} else {
-					cl.VerifGcAt(now)
+					cl.VerifGcNow(now)
 				}
 			default:
 				return "HARNESS-ERROR bad op"
@@ -150,7 +156,7 @@ func runLimiter(id string, parts []string) string {
 			d = "-"
 		}
 		return fmt.Sprintf("dec=%s len=%d near=%d", d, len(cl.VerifKeys()), near)
-	})
+	}
 }
 
 func runLimDefaults(id string, parts []string) string {
